@@ -543,15 +543,56 @@ namespace lab
 
     // Query variants beyond one start / one goal state.  Returns the cells of the additional in-bounds
     // start and goal states through xstarts / xgoals (for the model-side clauses).
+    // cells 8-reachable from `from` through free cells (the over-approximation of GridWorld.tla)
+    inline std::vector<char> reachableCells(const World &w, int from)
+    {
+        std::vector<char> seen(w.W * w.H, 0);
+        if (!w.cellFree(from))
+            return seen;
+        std::vector<int> todo{from};
+        seen[from] = 1;
+        while (!todo.empty())
+        {
+            int c = todo.back();
+            todo.pop_back();
+            for (int dy = -1; dy <= 1; ++dy)
+                for (int dx = -1; dx <= 1; ++dx)
+                {
+                    int x = c % w.W + dx, y = c / w.W + dy;
+                    if (x < 0 || y < 0 || x >= w.W || y >= w.H)
+                        continue;
+                    int d = y * w.W + x;
+                    if (!seen[d] && w.cellFree(d))
+                    {
+                        seen[d] = 1;
+                        todo.push_back(d);
+                    }
+                }
+        }
+        return seen;
+    }
+
+    // `apart`: the additional start / goal states are placed so that NO pair can be joined - additional goals in free
+    // cells the start cannot reach, additional starts in free cells of other components than the first start that
+    // cannot reach the goal either (used on maps whose goal is unreachable: only approximate answers exist, and
+    // they have to be put together from several start / goal pairs)
     inline ob::ProblemDefinitionPtr makeQueryVariant(Problem &pr, const std::string &kind, int startCell, int goalCell,
                                                      double thr, vt::Rng &rng, std::vector<int> &xstarts,
-                                                     std::vector<int> &xgoals)
+                                                     std::vector<int> &xgoals, bool apart = false)
     {
         auto off = [&]() { return (rng.unit() - 0.5) * 0.6; };
         double sdx = off(), sdy = off(), gdx = off(), gdy = off();
         auto pd = pr.makeQuery(startCell, goalCell, thr, sdx, sdy, gdx, gdy);
         const World &w = pr.world;
-        auto randomCell = [&]() { return rng.below(w.W * w.H); };
+        std::vector<int> pool;
+        if (apart)
+        {
+            auto fromStart = reachableCells(w, startCell), fromGoal = reachableCells(w, goalCell);
+            for (int c = 0; c < w.W * w.H; ++c)
+                if (w.cellFree(c) && !fromStart[c] && (kind == "goalstates" || !fromGoal[c]))
+                    pool.push_back(c);
+        }
+        auto randomCell = [&]() { return pool.empty() ? rng.below(w.W * w.H) : pool[rng.below((int)pool.size())]; };
         if (kind == "multistart")
         {
             // replace the start list: an out-of-bounds start, a start in a random cell (maybe an obstacle), the
@@ -575,7 +616,18 @@ namespace lab
             {
                 int c = randomCell();
                 ob::ScopedState<> x(pr.space);
-                setCell(pr.space, x.get(), w, c, off(), off());
+                double dx = off(), dy = off();
+                if (apart)
+                {
+                    // hug the side of the cell that faces the goal: the start is then (nearly) the point of its
+                    // component closest to the goal, which no sampled vertex beats
+                    int gx = goalCell % w.W - c % w.W, gy = goalCell / w.W - c / w.W;
+                    if (gx != 0)
+                        dx = gx > 0 ? 0.499 : -0.499;
+                    if (gy != 0)
+                        dy = gy > 0 ? 0.499 : -0.499;
+                }
+                setCell(pr.space, x.get(), w, c, dx, dy);
                 list.push_back(x);
                 xstarts.push_back(c);
             }
